@@ -46,6 +46,25 @@ var propC16 = parserProp{
 
 func TestC16(t *testing.T) { propC16.run(t, Kinds) }
 
+// TestC16Huge: the histories of C16 on "no window limit" configurations (see
+// hugeWindowTweak), with many NoTrailingLiterals calls: the distance
+// arithmetic of the parsers at the top of its range.
+var propC16Huge = func() parserProp {
+	pp := propC16
+	pp.tweak = hugeWindowTweak
+	pp.opts = func(kind string) histOpts {
+		o := propC16.opts(kind)
+		o.ntl = 50
+		o.ntlPair = 6
+		o.uniformPct = 40
+		o.tinyPct = 0
+		return o
+	}
+	return pp
+}()
+
+func TestC16Huge(t *testing.T) { propC16Huge.run(t, Kinds) }
+
 var propC16Wrap = wrapProp{prop: "C16", stats: "C16", maxBuf: 120, faults: true, nilCalls: true}
 
 func TestC16Wrap(t *testing.T) { propC16Wrap.run(t, Kinds) }
